@@ -31,6 +31,8 @@ S0 == [now |-> 0, n |-> 0, want |-> FALSE, cl |-> 0,
        late |-> <<>>,            \* frames fed on a connection that ended before they were delivered
        blocked |-> 0,            \* blocking subscribers installed and not released
        stalled |-> {},           \* connections whose send buffer is full (the console does not read)
+       idleSince |-> -1,         \* since when no connection exists or is being attempted (-1: one is)
+       openSince |-> -1,         \* since when the client has been open without interruption
        bp |-> FALSE,             \* an unencodable message may sit in the queue
        healFrom |-> 0, strict |-> FALSE, viol |-> <<>>]
 
@@ -195,6 +197,13 @@ Deliver(s, ev) ==
 -----------------------------------------------------------------------------
 (* checkpoints *)
 
+\* bookkeeping for GaveUpConnecting, after every event
+GIVEUP_MS == 2500
+Live(s) == \E c \in Conns(s) : s.conn[c] \in {"pending", "up", "half"}
+Idle(s) ==
+  [s EXCEPT !.idleSince = IF Live(s) THEN -1 ELSE IF @ = -1 THEN s.now ELSE @,
+            !.openSince = IF Op(s) = "yes" THEN (IF @ = -1 THEN s.now ELSE @) ELSE -1]
+
 Quiesce(s) ==
   LET up == UpConns(s)
       q  == s.blocked = 0
@@ -205,7 +214,11 @@ Quiesce(s) ==
       s2 == IF q /\ \E c \in OpenConns(s) : s.rx[c].pend # <<>> THEN V(s1, "FrameNotDelivered") ELSE s1
       s3 == IF q /\ \E c \in OpenConns(s) : s.rx[c].defect /\ s.rx[c].pend = <<>>
             THEN V(s2, "DefectNotClosed") ELSE s2
-      s4 == IF q /\ \E c \in Conns(s) : s.conn[c] = "half" THEN V(s3, "HalfOpenNotClosed") ELSE s3
+      s4a == IF q /\ \E c \in Conns(s) : s.conn[c] = "half" THEN V(s3, "HalfOpenNotClosed") ELSE s3
+      \* C07 / C15: an open client is connected, connecting, or in its 2 s back-off - it never sits idle
+      s4 == IF q /\ Op(s) = "yes" /\ s.idleSince >= 0 /\ s.now - s.idleSince >= GIVEUP_MS
+               /\ s.openSince >= 0 /\ s.now - s.openSince >= GIVEUP_MS
+            THEN V(s4a, "GaveUpConnecting") ELSE s4a
   IN [s4 EXCEPT !.bp = IF up # {} /\ Op(s) = "yes" /\ q THEN FALSE ELSE @]
 
 HealBegin(s) == [s EXCEPT !.healFrom = Len(s.acc)]
@@ -280,5 +293,5 @@ Step1(s0, ev) ==
                                                   ELSE s.acc[i]]]
        [] OTHER           -> s
 
-Step(s0, ev) == Track(Step1(s0, ev))
+Step(s0, ev) == Idle(Track(Step1(s0, ev)))
 =============================================================================
